@@ -461,7 +461,7 @@ func RunLifecycle(t *testing.T, sc *LScenario, emit func(*LifeObs)) {
 		}
 		// bounded settling time: the write deadline plus a margin; two inbound timeouts for the silent peer
 		if sc.Cause == "timer_disconnect" {
-			time.Sleep(5200 * time.Millisecond)
+			time.Sleep(6500 * time.Millisecond) // (TestRequest at 2 s, disconnect at 4 s, the timer loops look at their context once per timeout: up to 2.2 s more; margin for a loaded machine)
 		} else if sc.Phase == "logged" || sc.Phase == "logout" || sc.Phase == "relogged" {
 			// the timer loops look at their context once per timeout (1 s + 1 s tolerance + poll)
 			time.Sleep(2600 * time.Millisecond)
